@@ -304,6 +304,9 @@ C20_CORRUPTIONS = [
     ("an undecodable line is sent",
      lambda run: run[0].get("kind") == "json",
      lambda rows: _send_invalid(rows)),
+    ("a call arrives with a metadata entry of an earlier step",
+     lambda run: run[0].get("kind") == "scn",
+     lambda rows: _leak_md(rows)),
     ("one entry never shot",
      lambda run: run[0].get("kind") == "json" and run[0].get("inst") == 1,
      lambda rows: _drop_entry(rows)),
@@ -327,6 +330,20 @@ def _send_invalid(rows):
     for i, r_ in enumerate(rows):
         if r_["ev"] == "ShootBegin" and r_.get("ammo") == "!invalid" and first is not None:
             rows.insert(i + 1, dict(first))
+            return True
+    return False
+
+
+def _leak_md(rows):
+    # a received call without metadata additionally carries the metadata of the previous received call that had some
+    prev = None
+    for r_ in rows:
+        if r_["ev"] != "Recv":
+            continue
+        if r_["md"]:
+            prev = r_["md"]
+        elif prev:
+            r_["md"] = [dict(m) for m in prev]
             return True
     return False
 
@@ -366,7 +383,8 @@ def run(tier, v):
     jobs = [("GrpcWireMC", "GrpcWire_exh3.cfg" if thorough else "GrpcWire_exh.cfg", dict(kw, workers=8, heap="8g")),
             ("GrpcWireMC", "GrpcWire_neg_inplace.cfg", kw), ("GrpcWireMC", "GrpcWire_neg_abortonbad.cfg", kw),
             ("GrpcWireMC", "GrpcWire_neg_dropmd.cfg", kw)]
-    more_neg = [("GrpcWireMC", "GrpcWire_neg_shareddialsreflect.cfg", kw), ("GrpcWireMC", "GrpcWire_neg_scenariodeadline.cfg", kw)]
+    more_neg = [("GrpcWireMC", "GrpcWire_neg_shareddialsreflect.cfg", kw), ("GrpcWireMC", "GrpcWire_neg_scenariodeadline.cfg", kw),
+                ("GrpcWireMC", "GrpcWire_neg_dirtyafterfail.cfg", kw), ("GrpcWireMC", "GrpcWire_neg_leakmd.cfg", kw)]
     jobs += more_neg
     t0 = time.time()
     if thorough:   # files of 3 entries (2 instances) next to 3 instances (files of 2)
@@ -374,10 +392,10 @@ def run(tier, v):
     res = tlc_parallel(jobs)
     vlib.log("design TLC + negative controls: %.1fs (%d states)" % (time.time() - t0, res[0].distinct))
     vlib.tlc_must_pass(res[0], jobs[0][1])
-    for j, r in zip(jobs[1:6], res[1:6]):
+    for j, r in zip(jobs[1:8], res[1:8]):
         vlib.tlc_must_fail(r, j[1])
     states, trans = res[0].distinct, res[0].generated
-    for j, r in zip(jobs[6:], res[6:]):
+    for j, r in zip(jobs[8:], res[8:]):
         vlib.tlc_must_pass(r, j[1])
         states += r.distinct
         trans += r.generated
@@ -409,7 +427,7 @@ def run(tier, v):
         "abstract_entries": len(ents), "bad_entries": sum(1 for e in ents if e["bad"] != "none"),
         "runs": len(doc["runs"]), "runs_rejected": rejected,
         "calls_received": recvs, "trace_lines": len(rows), "trace_spec_states": tstates,
-        "negative_controls": ["inplace", "abortonbad", "dropmd", "shareddialsreflect", "scenariodeadline"], "corrupted_traces_rejected": corrupted, "design_configs": [jobs[0][1]] + [j[1] for j in jobs[6:]],
+        "negative_controls": ["inplace", "abortonbad", "dropmd", "shareddialsreflect", "scenariodeadline", "dirtyafterfail", "leakmd"], "corrupted_traces_rejected": corrupted, "design_configs": [jobs[0][1]] + [j[1] for j in jobs[8:]],
     }
     return "model_checking", cov, [
         "exhaustive TLC bounds: files of <= 2 entries over 4 grpc/json and 3 scenario classes, <= %d instances%s" % (
@@ -421,7 +439,8 @@ def run(tier, v):
         "declared too slow (exit 2). Real-time length of the timeout itself is not measured",
         "reflect_port runs: reflection is served by a second server that also implements the service; a call it receives has no action",
         "a scenario stops at its first failed step (what the gun does; the statement only asks that OTHER entries are undisturbed)",
-        "metadata: received ⊇ written (transport entries :authority, content-type, user-agent, grpc-* removed by the target)",
+        "metadata: received = written on every key pandora controls; grpc's own entries (:authority, content-type, user-agent, grpc-*) are "
+        "removed by the recording target",
         "trusted: renderers/projections in harness/cmd/vdrive/grpcwire.go and harness/internal/grpctarget"]
 
 
